@@ -4,8 +4,8 @@
 package coll
 
 import (
-	"reflect"
 	"fmt"
+	"reflect"
 	"sort"
 
 	fpgo "github.com/TeaEntityLab/fpGo/v2"
